@@ -421,8 +421,11 @@ def scope_types(wide):
         for combo in itertools.product(fnames, repeat=n):
             field_sets.append(list(combo))
     struct_opts = [(n, fs) for n in names for fs in field_sets]
+    # (wide: up to two structs of up to three fields, and three structs of up to two fields - about 10^6 trees; three
+    # structs of three fields each would be 2*10^7 and add no new coupling between the rules)
+    small_opts = [(n, fs) for n, fs in struct_opts if len(fs) <= 2]
     for ns in range(0, maxs + 1):
-        for structs in itertools.product(struct_opts, repeat=ns):
+        for structs in itertools.product(small_opts if ns >= 3 else struct_opts, repeat=ns):
             for enums in [[]] + [[n] for n in names] + ([[a, b] for a in names for b in names] if wide else []):
                 t = {"structs": [], "enums": [], "impls": [], "services": [], "devices": []}
                 for sn, fs in structs:
